@@ -417,6 +417,9 @@ func (pe *PolicyEngine) insertWorkload(rs interface{}, kind string) error {
 	var podObj *k8s.Pod
 	for _, podObj = range pods {
 		podStr := types.NamespacedName{Namespace: podObj.Namespace, Name: podObj.Name}
+		if oldPodObj, ok := pe.podsMap[podStr.String()]; ok {
+			pe.cache.podUpdated(oldPodObj, podStr.String()) // the pod object is replaced
+		}
 		pe.podsMap[podStr.String()] = podObj
 		// update cache with new pod associated to to its owner
 		pe.cache.addPod(podObj, podStr.String())
@@ -434,6 +437,9 @@ func (pe *PolicyEngine) insertPod(pod *corev1.Pod) error {
 		return err
 	}
 	podStr := types.NamespacedName{Namespace: podObj.Namespace, Name: podObj.Name}
+	if oldPodObj, ok := pe.podsMap[podStr.String()]; ok {
+		pe.cache.podUpdated(oldPodObj, podStr.String()) // the pod object is replaced
+	}
 	pe.podsMap[podStr.String()] = podObj
 	// update cache with new pod associated to to its owner
 	pe.cache.addPod(podObj, podStr.String())
